@@ -241,9 +241,15 @@ type Dest struct {
 	// AfterCall, when set, is invoked after every mutating call (after it was
 	// forwarded to Tee).
 	AfterCall func(op *Op)
+	// MaxOps, when > 0, bounds the number of recorded calls; exceeding it
+	// panics (a runaway producer must not exhaust memory).
+	MaxOps int
 }
 
 func (d *Dest) add(o Op) {
+	if d.MaxOps > 0 && len(d.Ops) >= d.MaxOps {
+		panic(fmt.Sprintf("rec.Dest: more than %d calls delivered", d.MaxOps))
+	}
 	d.Ops = append(d.Ops, o)
 	if d.AfterCall != nil {
 		d.AfterCall(&d.Ops[len(d.Ops)-1])
